@@ -19,6 +19,7 @@ R10.6  TapTreeBuilder is the binary counter over completed heights that brace pa
 import itertools
 
 from .. import model, symx, textmodel as tm, nametab
+from .. import builtins as B
 from ..interp import Machine, Adt, Term, PyVec, Panic, ok, err, dcopy
 from ..report import Unsupported
 
@@ -224,6 +225,19 @@ def check_miniscript_roundtrip(chk, F):
                 n_ok += 1
             if label.startswith("leaf:") or "[0]=t" in label:
                 chk.sample("%s -> %s" % (label, s))
+            if label.startswith("leaf:"):
+                # `{:#}` has no meaning for a miniscript: it must not reach the leaf values' own Display impls, whose
+                # alternate forms ("block-height 100", "0x..") are not the miniscript syntax
+                try:
+                    P_ = tm.printer_paths(F)
+                    dt = [a for a in F.adts if a.endswith("display::DisplayTypes")][0]
+                    fa = B.PyFmt(True)
+                    m.call_path(P_["conditional_fmt"], [t, fa, Adt(dt, "None", {})])
+                    sa = "".join(map(str, fa.out))
+                    chk.obligation(R, sa == s, "alternate:" + label, "`{:#}` prints %r, `{}` prints %r (the former does not parse)" % (sa, s),
+                                   where="src/miniscript/display.rs")
+                except Unsupported as e:
+                    chk.fail(R, "unanalysable:alternate:" + label, "unanalysable: %s" % e, where=e.where, kind="unanalysable")
             continue
         # attribute failures that are due to the raw-pubkey-hash fragment only
         key = label
